@@ -46,8 +46,8 @@ Proof.
 Qed.
 
 Definition ok_view (h : hst) : option written * list csevent * list csevent :=
-  (Some (mkWritten (resp_of (ro_ok p_recover_ok)) (h_sev h ++ flash_of (ro_ok p_recover_ok)) (h_cev h)),
-   h_sev h ++ flash_of (ro_ok p_recover_ok), h_cev h).
+  (Some (mkWritten (resp_of (ro_ok (p_recover_ok_of (e_cfg E)))) (h_sev h ++ flash_of (ro_ok (p_recover_ok_of (e_cfg E)))) (h_cev h)),
+   h_sev h ++ flash_of (ro_ok (p_recover_ok_of (e_cfg E))), h_cev h).
 
 Lemma st_load_nofault pid h :
   st_load (e_O E) pid h =
@@ -98,14 +98,14 @@ Proof.
     inversion F7; subst a7 k7; clear F7.
     match type of E2 with redirect E _ ?hh = _ =>
       assert (Oh : h_out hh = None) by (simpl; exact Q3);
-      destruct (redirect_nofault (ro_ok p_recover_ok) hh Oh) as (hx & Ex & Wx) end.
+      destruct (redirect_nofault (ro_ok (p_recover_ok_of (e_cfg E))) hh Oh) as (hx & Ex & Wx) end.
     rewrite Ex in E2. inversion E2; subst. split; [reflexivity|]. rewrite Wx. unfold ok_view. simpl. rewrite Q1, Q2. reflexivity.
   - (* unknown account *)
     apply bind_inv in E2 as [(a1 & k1 & F1 & E2)|[(e & F1 & ->)|(F1 & ->)]]; try (inversion F1; fail).
     inversion F1; subst a1 k1; clear F1.
     match type of E2 with redirect E _ ?hh = _ =>
       assert (Oh : h_out hh = None) by (simpl; exact Ho);
-      destruct (redirect_nofault (ro_ok p_recover_ok) hh Oh) as (hx & Ex & Wx) end.
+      destruct (redirect_nofault (ro_ok (p_recover_ok_of (e_cfg E))) hh Oh) as (hx & Ex & Wx) end.
     rewrite Ex in E2. inversion E2; subst. split; [reflexivity|]. rewrite Wx. reflexivity.
 Qed.
 End SV.
